@@ -35,6 +35,12 @@ func calleeKey(c *ssa.CallCommon) string {
 
 func shortFuncName(f *ssa.Function) string {
 	k := funcKey(f)
+	// instantiated generic: drop the type arguments ("sets.New[net/netip.Addr]" -> "sets.New")
+	if i := strings.Index(k, "["); i >= 0 {
+		if j := strings.LastIndex(k, "]"); j > i {
+			k = k[:i] + k[j+1:]
+		}
+	}
 	// strip directory part of package path: keep last element
 	if i := strings.LastIndex(k, "/"); i >= 0 {
 		k = k[i+1:]
@@ -373,8 +379,14 @@ func (x *FnExec) deAddr(v Val) Val {
 // ---------------------------------------------------------------------------
 
 func (x *FnExec) callGuards(fr *frame, n *node, in ssa.Instruction, c *ssa.CallCommon, key string, args []Val, reach string, ord int) {
+	x.siteGuards("call", fr, n, in, c, key, args, reach, ord)
+}
+
+// siteGuards: obligations at a call site (kind "call") or at a go statement (kind "go": what holds when the goroutine is
+// spawned, i.e. the state it is handed)
+func (x *FnExec) siteGuards(kind string, fr *frame, n *node, in ssa.Instruction, c *ssa.CallCommon, key string, args []Val, reach string, ord int) {
 	for _, g := range x.eng.specs.Guards {
-		if g.Kind != "call" || !guardMatchesCallee(g.Target, key) {
+		if g.Kind != kind || !guardMatchesCallee(g.Target, key) {
 			continue
 		}
 		if g.In != "" && !strings.HasSuffix(funcKey(x.top), "."+g.In) && !strings.HasSuffix(funcKey(fr.fn), "."+g.In) {
@@ -403,10 +415,10 @@ func (x *FnExec) callGuards(fr *frame, n *node, in ssa.Instruction, c *ssa.CallC
 		ctx := &evalCtx{env: n.env, st: n.st, old: fr.oldState, extra: extra, block: n.b, at: in}
 		goal, err := x.evalBool(fr, g.Expr, ctx)
 		if err != nil {
-			x.errf("guard call %s in %s: %v", g.Target, funcKey(fr.fn), err)
+			x.errf("guard %s %s in %s: %v", kind, g.Target, funcKey(fr.fn), err)
 			continue
 		}
-		o := x.addObl("guard", "call:"+g.Target, reach, goal, "guard call "+g.Target+": "+g.Src, in.Pos())
+		o := x.addObl("guard", kind+":"+g.Target, reach, goal, "guard "+kind+" "+g.Target+": "+g.Src, in.Pos())
 		o.Props = g.Props
 		g.Hits++
 	}
@@ -415,6 +427,16 @@ func (x *FnExec) callGuards(fr *frame, n *node, in ssa.Instruction, c *ssa.CallC
 func guardMatchesCallee(target, key string) bool {
 	if target == key {
 		return true
+	}
+	// instantiated generic: "sets.New[net/netip.Addr]" is addressed as "sets.New"
+	if i := strings.Index(key, "["); i >= 0 && !strings.Contains(target, "[") {
+		j := strings.LastIndex(key, "]")
+		if j > i {
+			key = key[:i] + key[j+1:]
+			if target == key {
+				return true
+			}
+		}
 	}
 	// allow matching on suffix "Recv.Name" or "Name"
 	return strings.HasSuffix(key, "."+target)
